@@ -557,6 +557,10 @@ class Emitter:
                 tmp = self.new_tmp(ct, self.E(inner))
                 return "&" + tmp
             core = core["inner"][0]
+        if core.get("kind") == "ConditionalOperator" and core.get("valueCategory") == "lvalue":
+            # C has no lvalue conditional: &(c ? a : b) -> (c ? &a : &b)
+            c, a, b = core["inner"]
+            return "(%s ? %s : %s)" % (self.paren(self.E(c)), self.addr_of(a), self.addr_of(b))
         e = self.E(core)
         if core.get("valueCategory") == "prvalue":
             tmp = self.new_tmp(self.ctype(core), e)
